@@ -45,7 +45,17 @@ func runC10(c *Ctx) {
 		sinks := callSinks(fn, "unlockedAddHostInfo", callTo(Ref{"", "HostMap", "unlockedAddHostInfo"}))
 		fromHI := func(v ssa.Value) bool { return derivesFrom(v, sliceLocal, func(x ssa.Value) bool { return x == hi }) }
 		listCall := Ref{"", "HostMap", "unlockedGetHostList"}
-		coll := func(v ssa.Value) bool { return isCallTo(listCall)(v) }
+		fVpnC10 := c.Field("", "HostInfo", "vpnAddrs")
+		// the list of every tunnel held for the *incoming* tunnel's first address
+		coll := func(v ssa.Value) bool {
+			call, _ := callOf(v)
+			if call == nil || !matchFunc(calleeObj(call), listCall) {
+				return false
+			}
+			key := callArgs(call)[1]
+			return derivesFrom(key, sliceLocal, func(x ssa.Value) bool { return loadsField(x, fVpnC10) && fromHI(x) }) &&
+				!derivesFrom(key, sliceLocal, func(x ssa.Value) bool { _, ok := x.(*ssa.Lookup); return ok })
+		}
 		fromList := func(v ssa.Value) bool { return derivesFrom(v, sliceLocal, coll) }
 		hpOf := func(owner func(ssa.Value) bool) func(ssa.Value) bool {
 			return func(v ssa.Value) bool {
@@ -57,7 +67,7 @@ func runC10(c *Ctx) {
 		dupSw := gBool("first-message bytes differ (bytes.Equal false)", false, -1, CallSpec{Refs: []Ref{{"bytes", "", "Equal"}}, Args: map[int]func(ssa.Value) bool{1: hpOf(fromHI), 0: hpOf(fromList)}})
 		loops := findRangeLoops(fn, coll)
 		if len(loops) != 1 {
-			c.Bad("C10.check", "CheckAndComplete:duplicate-for-all", c.P.Pos(fn.Pos()), fmt.Sprintf("expected one loop over every tunnel held for the address (unlockedGetHostList), found %d: a replay against a non-primary tunnel would be accepted", len(loops)))
+			c.Bad("C10.check", "CheckAndComplete:duplicate-for-all", c.P.Pos(fn.Pos()), fmt.Sprintf("expected one loop over unlockedGetHostList(hostinfo.vpnAddrs[0]) - every tunnel held for the incoming handshake's address -, found %d: a replay against a tunnel that is not in the scanned list would be accepted", len(loops)))
 		} else {
 			c.forAllGuard("C10.check", "CheckAndComplete:duplicate-for-all", fn, loops[0], sinks, gAny("first-message bytes differ", dup, dupSw))
 			// the loop is skipped only when no tunnel exists for the address
